@@ -76,9 +76,11 @@ def do_block_upload(rig, c):
         kw = dict(block_transfer=True, request_crc_support=c.get("crc", True))
         if style == "raw":
             out = bytearray()
+            rng = random.Random(repr(("c13rawreads", c.get("seed"))))
+            sevens = rng.random() < 0.5        # else: any size; whatever the raw stream hands out per call, the pieces are the value
             with sdo.open(c["mux"][0], c["mux"][1], "rb", buffering=0, **kw) as fp:
                 for _ in range(100000):
-                    chunk = fp.read(7)
+                    chunk = fp.read(7 if sevens else rng.randint(1, 9))
                     if not chunk:
                         break
                     out += chunk
